@@ -37,6 +37,8 @@
   valid values are accepted (the converse the text implies)      accepts_valid, takes_value_given
   the switch of opt_args, letter by letter                       switch_table_agrees, switch_table_complete, switch_rows_act,
                                                                  numeric_options_use_table_conv
+  the same at the point where a setting takes effect (the user  contacts_order_independent, contact_user_is_setting,
+   every target is contacted with; composed with C09's model)    contacts_witness
   pdsh / pdcp / rpdcp option sets (generated option strings)     personality_letters, dsh_remote_path_default,
                                                                  pcp_no_S_no_k, S_k_iff_on_command_line
   the remote command, the prompt loop (main as a whole)          command_is_operands, command_words_verbatim,
@@ -54,6 +56,11 @@
     * -z / -Z / -y (pdcp server / client modes started by pdcp itself): modelled (optVerifyModes, `plan`) and under
       the correspondence, but the theorems about refusals carry the hypothesis pcpServer = pcpClient = false.
     * what a module's option handler does with its argument; only its arity matters here (`Defaults.modOpts`).
+    * point of use: the user every target is contacted with is modelled (Opt/Use.lean, composed with C09's registry
+      model) and observed on real runs in every option order; the fanout and the command time-out in force are
+      OBSERVED where they take effect (overlapping commands, a command cut short) for every source and position, their
+      use inside dsh() is C03/C04's and C07's model; the connect time-out (exec refuses it) and the remote pdcp path
+      (no exec transport for the copy personalities in this build) are only observed where they are stored (-q).
 -/
 import PdshVerif.Opt.Settings
 import PdshVerif.Opt.Spec
@@ -62,6 +69,7 @@ import PdshVerif.Opt.Accept
 import PdshVerif.Opt.Table
 import PdshVerif.Opt.Command
 import PdshVerif.Props.C03
+import PdshVerif.Opt.Use
 
 namespace PdshVerif.C18
 open PdshVerif PdshVerif.Opt
@@ -1079,6 +1087,74 @@ theorem never_hangs_fanout {fx : Fixes} {d : Defaults} {p : Pers} {env : Env} {a
   · intro v n ls s he
     have := Props.C03.steps_bounded he
     omega
+
+/-! ## the settings where they take effect: what every target is contacted with -/
+
+/-- INDEPENDENT OF OPTION ORDER AT THE POINT OF USE (composition with the registry model of C09, Opt/Rcmd.lean:
+    wcoll_arg_process, rcmd_register_defaults, rcmd_create, rcmd_connect): the transport, user and rank EVERY target
+    is contacted with depend on the command line only through its -w words (in their order), the last -l and the
+    last -R — wherever these stand relative to each other and whatever other options are present.  In particular a
+    `-l` AFTER a `-w type:hosts` word applies to those hosts exactly as one before it. -/
+theorem contacts_order_independent (d : Defaults) (env : Env) (toks toks' : List Tok)
+    (hw : toks.filter (isOpt 'w') = toks'.filter (isOpt 'w'))
+    (hl : toks.filter (isOpt 'l') = toks'.filter (isOpt 'l'))
+    (hR : toks.filter (isOpt 'R') = toks'.filter (isOpt 'R')) :
+    contacts d env toks = contacts d env toks' := by
+  have h1 : wWords toks = wWords toks' := by rw [← wWords_filter toks, ← wWords_filter toks', hw]
+  have h2 := lastArg_other_options 'l' toks toks' hl
+  have h3 := lastArg_other_options 'R' toks toks' hR
+  unfold contacts rcmdCfg
+  rw [h1, h2, h3]
+
+/-- THE REMOTE-USER SETTING IS THE USER THAT IS USED: in an accepted run every target is contacted either as the
+    user it names itself (`user@host`: an entry of the registry built from the -w words) or as the remote user of
+    the accepted configuration — `precedence`'s value: the last -l, else the local user -/
+theorem contact_user_is_setting {fx : Fixes} {d : Defaults} {p : Pers} {env : Env} {argv : List Str} {c : Cfg}
+    {ls : List Rcmd.Line} (h : effective fx d p env argv = .ok c)
+    (hc : contacts d env (getopt (fullString d p) argv).1 = .lines ls) :
+    ∀ ln ∈ ls, ln.user = c.ruser ∨
+      ∃ reg e, Rcmd.processWords (rcmdCfg d env (getopt (fullString d p) argv).1)
+                 (wWords (getopt (fullString d p) argv).1) [] = some reg ∧
+               Rcmd.lookup reg ln.host = some e ∧ e.user = some ln.user := by
+  obtain ⟨_, _, _, a4, _, _, _⟩ := precedence h
+  obtain ⟨reg, dflt, hreg, hls⟩ := lines_of_run hc
+  intro ln hln
+  rw [hls] at hln
+  obtain ⟨host, r, rfl⟩ := mem_connectAll _ _ hln
+  unfold Rcmd.connect
+  simp only
+  cases hlk : Rcmd.lookup reg host with
+  | none =>
+    left
+    simp only [Option.bind_none, rcmdCfg]
+    rw [a4]
+    cases lastArg 'l' (getopt (fullString d p) argv).1 <;> simp [pick]
+  | some e =>
+    cases hu : e.user with
+    | none =>
+      left
+      simp only [Option.bind_some, hu, rcmdCfg]
+      rw [a4]
+      cases lastArg 'l' (getopt (fullString d p) argv).1 <;> simp [pick]
+    | some u =>
+      right
+      exact ⟨reg, e, hreg, hlk, by simp [hu]⟩
+
+def usersOf : Rcmd.Outcome → List (Str × Str)
+  | .lines ls => ls.map fun l => (l.host, l.user)
+  | .fatal => []
+
+/-- the command lines of the seeded change C18-10, and a target with a user of its own: both orders contact h1 as bar -/
+theorem contacts_witness :
+    usersOf (contacts d0 [] (getopt (fullString d0 .dsh) (words ["-w", "exec:h1", "-l", "bar", "cmd"])).1) =
+      [("h1".toList, "bar".toList)] ∧
+    usersOf (contacts d0 [] (getopt (fullString d0 .dsh) (words ["-l", "bar", "-w", "exec:h1", "cmd"])).1) =
+      [("h1".toList, "bar".toList)] ∧
+    usersOf (contacts d0 [] (getopt (fullString d0 .dsh) (words ["-w", "exec:h1,exec:u2@h3", "-l", "bar", "cmd"])).1) =
+      [("h1".toList, "bar".toList), ("h3".toList, "u2".toList)] ∧
+    usersOf (contacts d0 [] (getopt (fullString d0 .dsh) (words ["-R", "exec", "-w", "h2", "cmd"])).1) =
+      [("h2".toList, "root".toList)] := by
+  decide
 
 /-! ## the personalities: pdsh / pdcp / rpdcp have different option sets -/
 
